@@ -1750,9 +1750,18 @@ def GET_EYE(
         left = np.argmin(ty_c[:,0])
         right = np.argmax(ty_c[:,0])
 
-        eye_dict["t_left"] = t_left = find_nearest(t_set, ty_c[left,0])
-        eye_dict["t_right"] = t_right = find_nearest(t_set, ty_c[right,0])
-        eye_dict["t_opt"] = t_center = find_nearest(t_set, ty_c[:,0].mean())
+        tc_left, tc_right = ty_c[left,0], ty_c[right,0]
+
+        # The two crossings of an eye diagram are one slot apart. If all the transitions of the record fall
+        # on the same side of the 2-slot window (e.g. a periodic pattern), both clusters describe that single
+        # crossing: we keep it and place the other crossing one slot away.
+        if tc_right - tc_left < 0.5:
+            tc = ty[:,0].mean()
+            tc_left, tc_right = (tc, tc + 1) if tc < 0 else (tc - 1, tc)
+
+        eye_dict["t_left"] = t_left = find_nearest(t_set, tc_left)
+        eye_dict["t_right"] = t_right = find_nearest(t_set, tc_right)
+        eye_dict["t_opt"] = t_center = find_nearest(t_set, (tc_left + tc_right)/2)
         
         eye_dict["y_left"] = find_nearest(y_set, ty_c[left,1])
         eye_dict["y_right"] = find_nearest(y_set, ty_c[right,1])
